@@ -40,6 +40,22 @@ def streams_decompress(tier):
         mk('rand2blk', inputs.lcg(150000))
     return out
 
+def spec_shapes():
+    """Streams that stress the speculative side of the decompressor: (1) a carrier block with three complete
+    planted blocks, a small block, a block whose output takes more output buffers than there are free slots, a
+    tail; (2) two carrier blocks with 20 and 60 spurious headers that fail at once, a tail."""
+    from lib import bzgen
+    from lib.bzgen import Block
+    fake300 = bzgen.block_bitstring(Block(bytes(((i * 5) % 23) * 3 + 40 for i in range(300))))
+    fake = bzgen.block_bitstring(Block(b'fake block contents'))
+    junk = format(bzgen.BLOCK_MAGIC, '048b') + '0' * 32 + '0' * 48       # magic, "CRC", then an empty symbol map: fails at once
+    carrier3 = bzgen.carrier([fake, fake300, fake], 3, 1)
+    smallb = Block(bytes((i * 7) % 11 + 65 for i in range(60)))
+    multib = Block(bytes((i * 13) % 29 + 48 for i in range(2400)))      # 60 output buffers of 40 bytes: more than the 16W-2 free slots
+    s_stale = bzgen.build([([carrier3, smallb, multib, Block(b'tail')], 9)])[0]
+    s_junk = bzgen.build([([bzgen.carrier([junk] * 20, 2, 1, salt=1), bzgen.carrier([junk] * 60, 2, 2, salt=2), Block(b'tail')], 9)])[0]
+    return s_stale, s_junk
+
 def run(tier):
     chk = common.Check('C11', LEVEL, tier, quick_deadline=170, thorough_deadline=1700)
     ex = sched.Explorer(chk)
@@ -122,16 +138,7 @@ def run(tier):
     # priority-change points (PCT-style): strict-priority schedulers in which, at up to k points of the run, the
     # thread that would run next drops to the lowest priority -- a thread is starved from an arbitrary moment on.
     # Shapes: blocks with planted spurious candidates followed by blocks whose output takes most output slots.
-    from lib import bzgen
-    from lib.bzgen import Block
-    fake300 = bzgen.block_bitstring(Block(bytes(((i * 5) % 23) * 3 + 40 for i in range(300))))
-    fake = bzgen.block_bitstring(Block(b'fake block contents'))
-    junk = format(bzgen.BLOCK_MAGIC, '048b') + '0' * 32 + '0' * 48       # magic, "CRC", then an empty symbol map: fails at once
-    carrier3 = bzgen.carrier([fake, fake300, fake], 3, 1)
-    smallb = Block(bytes((i * 7) % 11 + 65 for i in range(60)))
-    multib = Block(bytes((i * 13) % 29 + 48 for i in range(2400)))      # 60 output buffers of 40 bytes: more than the 16W-2 free slots
-    s_stale = bzgen.build([([carrier3, smallb, multib, Block(b'tail')], 9)])[0]
-    s_junk = bzgen.build([([bzgen.carrier([junk] * 20, 2, 1, salt=1), bzgen.carrier([junk] * 60, 2, 2, salt=2), Block(b'tail')], 9)])[0]
+    s_stale, s_junk = spec_shapes()
     from lib import bzref
     dm2 = sched.Explorer(chk, scratch=ex.dir)
     dm1 = sched.Explorer(chk, scratch=ex.dir)
